@@ -290,7 +290,10 @@ func enumerate(r *vrt.R, emit func(*caseSpec) bool) {
 }
 
 func enumFrames(r *vrt.R, cfg cfgSpec, emit func(*caseSpec) bool) bool {
-	lens := []string{"ok", "ok+1", "ok-1", "pad", "v:0", "v:-1", fmt.Sprintf("v:%d", refframe.MaxFrame), fmt.Sprintf("v:%d", refframe.MaxFrame+1)}
+	lens := []string{"ok", "ok+1", "ok-1", "pad", "v:0"}
+	// these decide on the length prefix alone (reject / wait for 2 MiB that never come): the body is irrelevant,
+	// so they are combined with every body token but only the first claimed-size token
+	lensLite := []string{"v:-1", fmt.Sprintf("v:%d", refframe.MaxFrame), fmt.Sprintf("v:%d", refframe.MaxFrame+1)}
 	var datas, claims []string
 	type big struct{ data string }
 	var bigs []string
@@ -310,7 +313,8 @@ func enumFrames(r *vrt.R, cfg cfgSpec, emit func(*caseSpec) bool) bool {
 		for _, n := range sizes {
 			datas = append(datas, fmt.Sprintf("z:%d", n))
 		}
-		for _, n := range dedupInts([]int{t + 1, 300}, func(int) bool { return true }) {
+		datas = append(datas, "z:65536")
+		for _, n := range dedupInts([]int{t + 1, 300, 65536}, func(int) bool { return true }) {
 			for _, v := range []string{"cut1", "noadler", "half", "badadler", "trail"} {
 				datas = append(datas, fmt.Sprintf("z:%d:%s", n, v))
 			}
@@ -319,12 +323,13 @@ func enumFrames(r *vrt.R, cfg cfgSpec, emit func(*caseSpec) bool) bool {
 		capv := cfg.ref().Cap()
 		bigs = []string{fmt.Sprintf("z:%d", refframe.MaxFrame), fmt.Sprintf("z:%d", capv), fmt.Sprintf("z:%d", capv+1), fmt.Sprintf("z:%d:badadler", capv), fmt.Sprintf("z:%d:cut1", capv)}
 	}
+	// claimed sizes near the actual size / the threshold / the integer limits: full product with bodies and lengths
 	mkClaims := func(actual int) []string {
 		if !cfg.Comp {
 			return []string{"none"}
 		}
 		t := cfg.Thr
-		vals := dedupInts([]int{actual, actual - 1, actual + 1, -1, 0, 1, t - 1, t, t + 1, refframe.MaxFrame, 2 << 20, 2<<20 + 1, 8 << 20, 8<<20 + 1, math.MaxInt32, math.MinInt32},
+		vals := dedupInts([]int{actual, actual - 1, actual + 1, -1, 0, 1, t - 1, t, t + 1, math.MaxInt32, math.MinInt32},
 			func(int) bool { return true })
 		var out []string
 		for _, v := range vals {
@@ -332,6 +337,10 @@ func enumFrames(r *vrt.R, cfg cfgSpec, emit func(*caseSpec) bool) bool {
 		}
 		return append(out, "pad:0", fmt.Sprintf("pad:%d", actual), "cont5", "lone80")
 	}
+	// claimed sizes around the caps make a conforming decoder allocate MiBs per case; what happens is decided by
+	// the cap comparison (or, below the cap, by the inflated size), so they meet a reduced set of bodies
+	capClaims := []string{fmt.Sprintf("v:%d", refframe.MaxFrame), fmt.Sprintf("v:%d", 2<<20), fmt.Sprintf("v:%d", 2<<20+1), fmt.Sprintf("v:%d", 8<<20), fmt.Sprintf("v:%d", 8<<20+1)}
+	capDatas := []string{"z:300", "z:300:trail", "zs:300", "garbage", "bomb", "raw:1"}
 	one := func(fs frameSpec, prefixes bool) bool {
 		f := fs
 		full := &caseSpec{Cfg: cfg, Kind: "frame", Frame: &f, Sentinel: true, Cut: -1}
@@ -355,11 +364,27 @@ func enumFrames(r *vrt.R, cfg cfgSpec, emit func(*caseSpec) bool) bool {
 		if cfg.Comp {
 			claims = mkClaims(actual)
 		}
+		for _, l := range lensLite {
+			if !one(frameSpec{Len: l, Claim: claims[0], Data: d}, r.Thorough()) {
+				return false
+			}
+		}
 		for _, cl := range claims {
 			for _, l := range lens {
 				prefixes := r.Thorough() || l == "ok" || l == "ok+1"
 				if !one(frameSpec{Len: l, Claim: cl, Data: d}, prefixes) {
 					return false
+				}
+			}
+		}
+	}
+	if cfg.Comp {
+		for _, d := range capDatas {
+			for _, cl := range capClaims {
+				for _, l := range []string{"ok", "ok+1"} {
+					if !one(frameSpec{Len: l, Claim: cl, Data: d}, l == "ok") {
+						return false
+					}
 				}
 			}
 		}
@@ -423,6 +448,7 @@ func enumFree(r *vrt.R, cfg cfgSpec, emit func(*caseSpec) bool) bool {
 			a = append(a, s)
 		}
 	}
+	heavy := fmt.Sprintf("V%d", refframe.MaxFrame)
 	depth := 3
 	if r.Thorough() {
 		depth = 4
@@ -448,6 +474,9 @@ func enumFree(r *vrt.R, cfg cfgSpec, emit func(*caseSpec) bool) bool {
 			return true
 		}
 		for _, s := range a {
+			if s == heavy && len(toks) >= 2 {
+				continue // announces a 2 MiB frame: each use costs 2 MiB of zeroing; kept to strings of <= 2 tokens
+			}
 			toks = append(toks, s)
 			if !rec() {
 				return false
